@@ -280,6 +280,175 @@ func (e c19Emitter) requal(gen, a, b string) {
 	e.out.Line("requal %s %s %s => %d %d", gen, a, b, eq, f)
 }
 
+// detectors with identity for resource.New: the same kind+id on a line is the SAME detector value
+type c19PtrDet struct {
+	res *Resource
+	err error
+}
+
+func (d *c19PtrDet) Detect(context.Context) (*Resource, error) { return d.res, d.err }
+
+type c19Table struct{ m map[int]c19Detector }
+
+// comparable struct: two values with the same id (and table) are ==
+type c19StructDet struct {
+	id  int
+	tab *c19Table
+}
+
+func (d c19StructDet) Detect(context.Context) (*Resource, error) {
+	x := d.tab.m[d.id]
+	return x.res, x.err
+}
+
+// not comparable (func field)
+type c19FuncDet struct {
+	f func() (*Resource, error)
+}
+
+func (d c19FuncDet) Detect(context.Context) (*Resource, error) { return d.f() }
+
+// new: resource.New(ctx, opts...) driven through the options of config.go
+func (e c19Emitter) newRes(gen, attrs, svc string, optToks []string) {
+	attrs = strings.ReplaceAll(attrs, "\x00", "0")
+	svc = strings.ReplaceAll(svc, "\x00", "0")
+	if os.Setenv(resourceAttrKey, attrs) != nil || os.Setenv(svcNameKey, svc) != nil {
+		panic("setenv failed")
+	}
+	tab := &c19Table{m: map[int]c19Detector{}}
+	ptrs := map[string]*c19PtrDet{}
+	mk := func(tok string) Detector {
+		if tok == "nild" {
+			return nil
+		}
+		i := strings.IndexByte(tok, '/')
+		kid := tok[:i]
+		base := c19MkDet(tok[i+1:]).(c19Detector)
+		switch kid[0] {
+		case 'P':
+			if p, ok := ptrs[kid]; ok {
+				return p
+			}
+			p := &c19PtrDet{res: base.res, err: base.err}
+			ptrs[kid] = p
+			return p
+		case 'S':
+			id, _ := strconv.Atoi(kid[1:])
+			if _, ok := tab.m[id]; !ok {
+				tab.m[id] = base
+			}
+			return c19StructDet{id: id, tab: tab}
+		}
+		return c19FuncDet{f: func() (*Resource, error) { return base.res, base.err }}
+	}
+	var opts []Option
+	shown := make([]string, len(optToks))
+	for i, tok := range optToks {
+		shown[i] = tok
+		switch {
+		case tok == "env":
+			opts = append(opts, WithFromEnv())
+		case strings.HasPrefix(tok, "sch:"):
+			opts = append(opts, WithSchemaURL(c19Unhex(tok[5:])))
+		case strings.HasPrefix(tok, "attrs:"):
+			opts = append(opts, WithAttributes(c19ParseKVs(tok[6:])...))
+		case strings.HasPrefix(tok, "tsdk:"):
+			opts = append(opts, WithTelemetrySDK())
+			// what this built-in detector returns is an input of the line
+			r, _ := telemetrySDK{}.Detect(context.Background())
+			shown[i] = "tsdk:" + c19Res(r)
+		case strings.HasPrefix(tok, "dets:"):
+			var ds []Detector
+			if body := tok[5:]; body != "" {
+				for _, d := range strings.Split(body, ";") {
+					ds = append(ds, mk(d))
+				}
+			}
+			opts = append(opts, WithDetectors(ds...))
+		default:
+			panic("bad option token " + tok)
+		}
+	}
+	*e.handled = 0
+	r, err := New(context.Background(), opts...)
+	sep := ""
+	if len(shown) > 0 {
+		sep = " "
+	}
+	e.out.Line("new %s x%s x%s%s%s => %s %s", gen, c19Hex(attrs), c19Hex(svc), sep, strings.Join(shown, " "), c19Res(r), c19Err(err))
+}
+
+func c19GenNew(r *vRand) (string, string, string, []string) {
+	// 2-4 detectors with identity
+	nd := 2 + r.Intn(3)
+	defs := make([]string, nd)
+	for i := range defs {
+		d := c19GenDet(r)
+		for d == "nild" {
+			d = c19GenDet(r)
+		}
+		defs[i] = fmt.Sprintf("%s%d/%s", vPick(r, []string{"P", "P", "S", "S", "F"}), i, d)
+	}
+	attrs, svc := "", ""
+	if r.Intn(3) > 0 {
+		attrs = vPick(r, []string{"a=env", "k=1,service.name=fromattrs", "b=%41, c = x", "a=env,noeq", ""})
+		svc = c19GenSvc(r)
+	}
+	kvsOpt := func() string {
+		if r.Intn(3) == 0 {
+			return "attrs:" + c19KVs([]attribute.KeyValue{attribute.String("service.name", "fallback"), attribute.String("a", "fallback")})
+		}
+		return "attrs:" + c19GenKVs(r)
+	}
+	gen := "rnd"
+	var opts []string
+	switch r.Intn(6) {
+	case 0:
+		// a detector given again after another one, in one option
+		gen = "aba"
+		a, b := defs[0], defs[1]
+		opts = []string{"dets:" + a + ";" + b + ";" + a}
+	case 1:
+		// … or in separate options, with something in between
+		gen = "aba"
+		a := vPick(r, defs)
+		mid := vPick(r, []string{"dets:" + vPick(r, defs), kvsOpt(), "env"})
+		opts = []string{"dets:" + a, mid, "dets:" + a}
+	case 2:
+		gen = "envtwice"
+		opts = []string{"env", kvsOpt(), "env"}
+		if r.Bool() {
+			opts = append([]string{"tsdk:-@x"}, append(opts, "tsdk:-@x")...)
+		}
+	default:
+		for n := r.Intn(6); n > 0; n-- {
+			switch r.Intn(20) {
+			case 0, 1, 2:
+				opts = append(opts, kvsOpt())
+			case 3, 4, 5:
+				opts = append(opts, "env")
+			case 6, 7:
+				opts = append(opts, "sch:x"+c19Hex(vPick(r, c19Schemas)))
+			case 8, 9:
+				opts = append(opts, "tsdk:-@x")
+			case 10:
+				opts = append(opts, "dets:")
+			default:
+				k := 1 + r.Intn(3)
+				ds := make([]string, k)
+				for j := range ds {
+					ds[j] = vPick(r, defs)
+					if r.Intn(12) == 0 {
+						ds[j] = "nild"
+					}
+				}
+				opts = append(opts, "dets:"+strings.Join(ds, ";"))
+			}
+		}
+	}
+	return gen, attrs, svc, opts
+}
+
 var c19Keys = []string{"a", "b", "c", "d", "service.name", "", "k"}
 var c19Schemas = []string{"", "http://s/1", "http://s/2", "http://s/3"}
 
@@ -406,6 +575,8 @@ func TestVerifC19Res(t *testing.T) {
 				e.detect(f[1], c19Unhex(f[2][1:]), f[3:])
 			case "requal":
 				e.requal(f[1], f[2], f[3])
+			case "new":
+				e.newRes(f[1], c19Unhex(f[2][1:]), c19Unhex(f[3][1:]), f[4:])
 			}
 		}
 		return
@@ -428,7 +599,10 @@ func TestVerifC19Res(t *testing.T) {
 		rec(nil, 0)
 	}
 	for i := 0; i < n; i++ {
-		switch r.Intn(16) {
+		switch r.Intn(20) {
+		case 16, 17, 18, 19:
+			gen, attrs, svc, opts := c19GenNew(r)
+			e.newRes(gen, attrs, svc, opts)
 		case 0, 1:
 			gen := "rnd"
 			if r.Intn(4) == 0 {
